@@ -217,8 +217,12 @@ def run(ctx):
             e, info = res[i]
             origin, data, lg, cfgt = meta[i]
             for b in rep["bad"]:
-                if b == "Terminates":
-                    sig = "Terminates|spins-in=%s|%s" % (info["last_pass"], lg if info["last_pass"] in ("tokenize", "after-tokenize") else "any")
+                if b == "Terminates" and info["last_pass"] in ("width-loop", "newline-loop"):
+                    # a convergence loop that does not converge: one class (the recorded finding)
+                    sig = "Terminates|spins-in=%s|any" % info["last_pass"]
+                elif b == "Terminates":
+                    # a pass that does not return: identified by the input
+                    sig = "Terminates|spins-in=%s|%s|%s|%s" % (info["last_pass"], lg, origin, hashlib.sha1(data + cfgt.encode()).hexdigest()[:10])
                 else:
                     sig = "%s|%s|%s|%s" % (b, lg, origin, hashlib.sha1(data + cfgt.encode()).hexdigest()[:10])
                 ctx.violation(sig, "%s violated: %s input derived from %s (%d bytes): rc=%d timedout=%s stdout=%d stderr=%d%s" % (
